@@ -902,6 +902,87 @@ func runC18(r *Run) {
 	} else {
 		r.Bad("R13", "anchor/EthAccountVerificationDecorator.AnteHandle", "", "not found")
 	}
+	r.Rule("R14", "PATH.empty-wire-integers-are-refused + block-readers-recompute-the-hash: (a) a custom-type integer field that is present on the wire with length 0 decodes to a non-nil *Int whose inner number is nil; in the stateless Validate of the three transaction types every method called on such a field's value (IsNegative, BigInt, …) is preceded on every path by IsNil() of the same field (or goes through the nil-aware getter, as the legacy and access-list types do) — otherwise ValidateBasic panics on an envelope that still unwraps to the original hash and sender; (b) the indexer of committed blocks (indexer/), which files an entry per message under its hash and also sees transactions that failed DeliverTx — and so possibly never passed ValidateBasic, the only place the recorded hash is compared — does not read MsgEthereumTx.Hash: it recomputes the hash from the message's data")
+	{
+		nDeref := 0
+		for _, tn := range []string{"DynamicFeeTx", "AccessListTx", "LegacyTx"} {
+			fn, ok := P.FnOK("(x/evm/types." + tn + ").Validate")
+			if !ok {
+				r.Bad("R14", "anchor/"+tn+".Validate", "", "not found")
+				continue
+			}
+			ptrField := func(v ssa.Value) (string, bool) {
+				if pt, ok := v.Type().Underlying().(*types.Pointer); !ok || namedName(pt.Elem()) != "Int" {
+					return "", false
+				}
+				if u, ok := v.(*ssa.UnOp); ok && u.Op == token.MUL {
+					if _, f, ok := fieldOfAddr(u.X); ok {
+						return f, true
+					}
+				}
+				if _, f, ok := fieldOfValue(v); ok {
+					return f, true
+				}
+				return "", false
+			}
+			recvField := func(ci CallInfo) (string, bool) {
+				if ci.Recv != "Int" || len(ci.Instr.Common().Args) == 0 {
+					return "", false
+				}
+				a := ci.Instr.Common().Args[0]
+				if f, ok := ptrField(a); ok { // pointer-receiver method
+					return f, true
+				}
+				if u, ok := a.(*ssa.UnOp); ok && u.Op == token.MUL {
+					return ptrField(u.X)
+				}
+				return "", false
+			}
+			seen := map[string]int{}
+			eachCall(fn, func(ci CallInfo) {
+				f, ok := recvField(ci)
+				if !ok || ci.Name == "IsNil" {
+					return
+				}
+				nDeref++
+				seen[f+"."+ci.Name]++
+				w := PathQuery{Fn: fn, Block: isCallMatching(func(g CallInfo) bool {
+					gf, ok := recvField(g)
+					return ok && g.Name == "IsNil" && gf == f
+				}), Target: func(in ssa.Instruction) bool { return in == ci.Instr.(ssa.Instruction) }}.Search()
+				r.Check(w == nil, "R14", fmt.Sprintf("%s#%s.%s-%d-after-IsNil", fnID(fn), f, ci.Name, seen[f+"."+ci.Name]), P.Pos(instrPos(ci.Instr)), "preceded by "+f+".IsNil() on every path",
+					tn+".Validate calls "+f+"."+ci.Name+"() after testing only the pointer: a "+f+" field present on the wire with length 0 (append 0x1a 0x00 / 0x22 0x00 to a packed "+tn+") decodes to a non-nil Int without a number — the envelope unwraps to the same hash and sender, ValidateBasic panics (code 111222) where the sibling types answer ErrInvalidGasPrice", P.witness(w)...)
+			})
+		}
+		r.Floor("R14", "methods called on wire integers in the stateless Validate functions", nDeref, 2)
+		nRead := 0
+		for _, fn := range P.Funcs {
+			pp := fnPkgPath(fn)
+			if !isHaqqPath(pp) || isTestSupport(P, fn) || fn.Synthetic != "" {
+				continue
+			}
+			// the indexer files entries under the hash; the rpc readers only compare a requested hash with it to
+			// locate a message inside a transaction the index already points at
+			if !(strings.HasSuffix(pp, "/indexer") || strings.Contains(pp, "/indexer/") || pp == "indexer") {
+				continue
+			}
+			idx := 0
+			eachInstr(fn, func(in ssa.Instruction) {
+				u, ok := in.(*ssa.UnOp)
+				if !ok || u.Op != token.MUL {
+					return
+				}
+				if sn, f, ok := fieldOfAddr(u.X); ok && sn == "MsgEthereumTx" && f == "Hash" {
+					idx++
+					nRead++
+					r.Bad("R14", fmt.Sprintf("%s#reads-recorded-hash-%d", fnID(fn), idx), P.Pos(instrPos(in)), "a reader of committed blocks takes the transaction hash from MsgEthereumTx.Hash: blocks also hold transactions that failed DeliverTx with an 'expected failure' marker in the log (a substring test), and a message failing ValidateBasic on its From field (From = \"failed to commit stateDB\") is never compared with its recorded hash — a proposer files someone else's failed message under a victim's hash (the victim's index entry {Height:1 Failed:false} becomes {Height:2 Failed:true})")
+				}
+			})
+		}
+		if nRead == 0 {
+			r.OK("R14", "block-readers#recorded-hash-unread", "", "no function under indexer/ reads MsgEthereumTx.Hash")
+		}
+	}
 	r.Rule("R11", "PATH.wire-integers-bounded-before-storing + nil-base-fee: (a) the constructors that wrap a typed Ethereum transaction (newAccessListTx, NewDynamicFeeTx) store the chain id with SetSignatureValues, which converts with the panicking NewIntFromBigInt — the call is reachable only after an error-checked SafeNewIntFromBigInt / IsValidInt256 of a value derived from tx.ChainId(), as for every amount field: a chain id above 256 bits must be an error like for a legacy transaction, not a panic; (b) DynamicFeeTx.EffectiveGasPrice reaches the arithmetic helper only over the edge on which the base fee is not nil — without a base fee (London inactive) go-ethereum prices the transaction at its fee cap, the helper dereferences the nil and the minimum-gas-price decorator panics on every dynamic-fee transaction")
 	for _, id := range []string{evmTypes + ".newAccessListTx", evmTypes + ".NewDynamicFeeTx"} {
 		fn, ok := P.FnOK(id)
